@@ -93,10 +93,12 @@ def r08c(ctx):
             flat(loop.body)
             idx = {}
             clear_test = None
+            clone_src = None
             for k, s_ in enumerate(stmts):
                 if isinstance(s_, ast.Assign) and isinstance(s_.targets[0], ast.Name) and s_.targets[0].id == var and isinstance(s_.value, ast.Attribute) \
-                        and s_.value.attr == "clone" and isinstance(s_.value.value, ast.Name) and s_.value.value.id == var:
+                        and s_.value.attr == "clone" and isinstance(s_.value.value, ast.Name):
                     idx.setdefault("clone", k)
+                    clone_src = s_.value.value.id
                 if s_ in stamp_assigns:
                     idx.setdefault("stamp", k)
                 if isinstance(s_, ast.If) and clears(s_):
@@ -113,6 +115,14 @@ def r08c(ctx):
             missing = [k for k in need if k not in idx]
             ok = not missing
             why = f"missing {missing}" if missing else ""
+            # every copy of a run is cloned from the stored item, not from the copy yielded just before (which the caller may have edited while iterating)
+            if clone_src is not None:
+                indep = clone_src != var
+                ctx.instance("R08c", where, f"arm {i + 1}: each copy is cloned from `{clone_src}`" + ("" if indep else ", the variable that is yielded"), ok=indep, nontrivial=True, line=loop.lineno)
+                if not indep:
+                    ctx.report("R08c", f, loop, f"{q} arm {i + 1}: `{var} = {var}.clone` inside the run loop",
+                               f"{q} clones each copy of a repeated run from the copy it yielded before: an edit made by the caller while iterating lazily reappears in the "
+                               f"following copies of the run, which are documented as independent copies of what the table holds")
             if ok:
                 reads_x = any(isinstance(x, ast.Name) and x.id == xv for x in ast.walk(clear_test))
 
@@ -493,8 +503,12 @@ SEEDS = [
     Seed("Row._get_cell2 returns the cached cell", "fault", _R, "        if clone:\n            return self._get_cell2_base(x).clone  # type: ignore\n        else:\n            return self._get_cell2_base(x)",
          "        return self._get_cell2_base(x)", "R08a"),
     Seed("Row.traverse yields the cached cell", "fault", _R,
-         "                    if cell is None:\n                        cell = Cell()\n                    else:\n                        cell = cell.clone\n                        if repeated > 1:\n                            cell.repeated = None\n                    cell.y = self.y",
-         "                    if cell is None:\n                        cell = Cell()\n                    cell.y = self.y", "R08a"),
+         "                    if cell is None:\n                        copy = Cell()\n                    else:\n                        copy = cell.clone\n                        if repeated > 1:\n                            copy.repeated = None\n                    copy.y = self.y",
+         "                    if cell is None:\n                        copy = Cell()\n                    else:\n                        copy = cell\n                    copy.y = self.y", "R08"),
+    Seed("Row.traverse clones each copy from the copy yielded before", "fault", _R,
+         "                        copy = cell.clone\n                        if repeated > 1:\n                            copy.repeated = None\n                    copy.y = self.y\n                    copy.x = x\n                    x += 1\n                    yield copy",
+         "                        cell = cell.clone\n                        if repeated > 1:\n                            cell.repeated = None\n                    cell.y = self.y\n                    cell.x = x\n                    x += 1\n                    yield cell", "R08c",
+         edits=[(_R, "                    if cell is None:\n                        copy = Cell()\n                    else:\n                        cell = cell.clone", "                    if cell is None:\n                        cell = Cell()\n                    else:\n                        cell = cell.clone")]),
     Seed("_get_column2 returns the live column", "fault", _T, "            return column.clone  # type: ignore\n", "            return column  # type: ignore\n", "R08a"),
     Seed("get_column_cells asks for live cells", "fault", _T, "            for row in self.traverse():\n                cells.append(row.get_cell(x, clone=True))\n            return cells",
          "            for row in self._get_rows():\n                cells.append(row.get_cell(x, clone=False))\n            return cells", "R08a"),
@@ -502,12 +516,12 @@ SEEDS = [
     Seed("Table.traverse forgets row.y", "fault", _T, "            row.y = y\n            yield row", "            yield row", "R08b"),
     Seed("get_column forgets column.x", "fault", _T, "        column.x = x\n        return column", "        return column", "R08b"),
     Seed("traverse_columns advances x before the test again", "fault", _T,
-         "                        column.x = x\n                        if repeated > 1 or (x == start and start > 0):\n                            column.repeated = None\n                        x += 1",
-         "                        column.x = x\n                        x += 1\n                        if repeated > 1 or (x == start and start > 0):\n                            column.repeated = None", "R08c"),
+         "                        copy.x = x\n                        if repeated > 1 or (x == start and start > 0):\n                            copy.repeated = None\n                        x += 1",
+         "                        copy.x = x\n                        x += 1\n                        if repeated > 1 or (x == start and start > 0):\n                            copy.repeated = None", "R08c"),
     Seed("Row.traverse range arm forgets the inside-run case", "fault", _R,
-         "                            if repeated > 1 or (x == start and start > 0):\n                                cell.repeated = None", "                            if repeated > 1:\n                                cell.repeated = None", "R08c"),
+         "                            if repeated > 1 or (x == start and start > 0):\n                                copy.repeated = None", "                            if repeated > 1:\n                                copy.repeated = None", "R08c"),
     Seed("Row.traverse full arm keeps repeats", "fault", _R,
-         "                        cell = cell.clone\n                        if repeated > 1:\n                            cell.repeated = None\n                    cell.y = self.y", "                        cell = cell.clone\n                    cell.y = self.y", "R08c"),
+         "                        copy = cell.clone\n                        if repeated > 1:\n                            copy.repeated = None\n                    copy.y = self.y", "                        copy = cell.clone\n                    copy.y = self.y", "R08c"),
     Seed("Table.get_cell outside the table grows it", "fault", _T, "        if y >= self.height:\n            cell = Cell()\n        else:\n            # Inside the defined table\n            row = self._get_row2_base(y)",
          "        if y >= self.height:\n            cell = self.set_cell((x, y), Cell())\n        else:\n            # Inside the defined table\n            row = self._get_row2_base(y)", "R08d"),
     Seed("Row.get_cell defaults to clone=False", "fault", _R, "    def get_cell(self, x: int, clone: bool = True) -> Cell | None:", "    def get_cell(self, x: int, clone: bool = False) -> Cell | None:", "R08"),
